@@ -749,6 +749,37 @@ func checkSchedulerUpdate(p *core.Prog, r *core.Report, rule string) {
 			r.Check(inClause(mjs), rule, "Update/MsgJobSucceeded→MarkJobSuccess", "a finished job marks its unit PartialPresent", "MarkJobSuccess not called", p.Pos(cl.Pos()))
 		}
 	}
+	// wake-ups: the events that can make a merge or a job possible re-arm both (otherwise a unit stays PartialPresent or
+	// Pending for ever once no later event of that stage arrives)
+	ctm := p.FuncObj(pkgStage, "Stages.CmdTryMerge")
+	csn := p.FuncObj(pkgWork, "CmdScheduleNextJob")
+	mc := p.FuncObj(pkgStage, "Stages.MergeCompleted")
+	isMergeOf := func(wantUnit bool, fromCall *types.Func) func(ssa.Instruction) bool {
+		return func(in ssa.Instruction) bool {
+			if core.CalleeOf(in) != ctm {
+				return false
+			}
+			args := in.(ssa.CallInstruction).Common().Args
+			src := core.Trace(args[len(args)-1], 0)
+			if fromCall != nil {
+				return src.HasCall(fromCall)
+			}
+			return hasFieldNamed(src, "Stage") && hasFieldNamed(src, "Unit") == wantUnit && !src.HasCall(mjs)
+		}
+	}
+	for _, c := range core.FindInstrs(fn, core.IsCallTo(mjs)) {
+		_, own := core.MustReachAfter(fn, c, isMergeOf(true, nil), nil)
+		r.Check(own, rule, "Update/MsgJobSucceeded→CmdTryMerge(own stage)", "a finished job always triggers a merge attempt for its own stage, whether or not it shadowed lower stages (a store-stage job can shadow too)", "a path after MarkJobSuccess issues no CmdTryMerge(msg.Unit.Stage)", p.Pos(c.Pos()))
+		shadow := len(core.FindInstrs(fn, isMergeOf(false, mjs))) > 0
+		r.Check(shadow, rule, "Update/MsgJobSucceeded→CmdTryMerge(shadowed)", "every stage shadowed by the finished job gets a merge attempt as well", "no CmdTryMerge on the stages of the units returned by MarkJobSuccess", p.Pos(c.Pos()))
+		_, next := core.MustReachAfter(fn, c, core.IsCallTo(csn), nil)
+		r.Check(next, rule, "Update/MsgJobSucceeded→CmdScheduleNextJob", "a finished job re-arms the scheduling of the next job", "a path after MarkJobSuccess issues no CmdScheduleNextJob", p.Pos(c.Pos()))
+	}
+	for _, c := range core.FindInstrs(fn, core.IsCallTo(mc)) {
+		_, again := core.MustReachAfter(fn, c, func(in ssa.Instruction) bool { return isMergeOf(false, nil)(in) || isMergeOf(true, nil)(in) }, nil)
+		_, next := core.MustReachAfter(fn, c, core.IsCallTo(csn), nil)
+		r.Check(again && next, rule, "Update/MsgMergeFinished→wake-ups", "a finished merge triggers the next merge attempt of that stage and re-arms job scheduling (dependants may have become schedulable)", fmt.Sprintf("CmdTryMerge(msg.Stage) on every path: %v; CmdScheduleNextJob on every path: %v", again, next), p.Pos(c.Pos()))
+	}
 	// Quit carries the error to Run's return
 	qf := p.Func(pkgLoop, "Quit")
 	okQ := false
